@@ -55,6 +55,7 @@ type Log struct {
 	Ops     []Op
 	Initial map[string][]byte // files that existed under the root before the trace
 	NInodes int
+	Calls   map[string]int // number of traced calls per syscall name on tracked files (markers included for write)
 	initIno map[string]int
 }
 
@@ -130,7 +131,7 @@ func Parse(tracePath, root, markPath string, initial map[string][]byte) (*Log, e
 		return nil, err
 	}
 	defer f.Close()
-	lg := &Log{Initial: map[string][]byte{}, initIno: map[string]int{}}
+	lg := &Log{Initial: map[string][]byte{}, initIno: map[string]int{}, Calls: map[string]int{}}
 	names := map[string]int{}
 	sizes := map[int]int64{}
 	for p, b := range initial {
@@ -201,6 +202,7 @@ func Parse(tracePath, root, markPath string, initial map[string][]byte) (*Log, e
 			if !ok || !tracked(path) {
 				continue
 			}
+			lg.Calls["openat"]++
 			flags := ""
 			if pi+1 < len(args) {
 				flags = args[pi+1]
@@ -246,6 +248,7 @@ func Parse(tracePath, root, markPath string, initial map[string][]byte) (*Log, e
 			}
 		case "lseek":
 			if st := fdOf(0); st != nil {
+				lg.Calls["lseek"]++
 				if ret >= 0 {
 					st.off = ret
 				} else {
